@@ -174,18 +174,25 @@ impl RdbEngine {
         
         let engine = self.clone();
         
+        // Clears the in-progress flag however the background thread ends, including by a
+        // panic: otherwise every later BGSAVE would be refused for good
+        struct ClearFlag(Arc<Mutex<bool>>);
+        impl Drop for ClearFlag {
+            fn drop(&mut self) {
+                let mut bgsave = self.0.lock().unwrap_or_else(|poisoned| poisoned.into_inner());
+                *bgsave = false;
+            }
+        }
+        
         // Spawn background thread
         thread::spawn(move || {
+            let _clear_flag = ClearFlag(Arc::clone(&engine.bgsave_in_progress));
             println!("RDB: Background saving started");
             
             match engine.save(&storage) {
                 Ok(_) => println!("RDB: Background saving terminated with success"),
                 Err(e) => eprintln!("RDB: Background saving error: {}", e),
             }
-            
-            // Clear in-progress flag
-            let mut bgsave = engine.bgsave_in_progress.lock().unwrap();
-            *bgsave = false;
         });
         
         Ok(())
